@@ -149,9 +149,9 @@ var props = map[string]*propCfg{
 		Title:    "line splitting is exact and returned buffers are never overwritten",
 		Quick:    tierCfg{Runs: 25000, Chunk: 800, RaceRuns: 320, DetRuns: 48, ShrinkSec: 30},
 		Thorough: tierCfg{Runs: 1250000, Chunk: 20000, RaceRuns: 16000, DetRuns: 256, ShrinkSec: 120},
-		Rule: "one evaluation = one scanner case: a byte string (length 0-200 over alphabets dense in \\n and \\r) scanned by readahead.NewImmediate (buffer 1-64 or 128KiB) or NewBuffered (2-64) through a scripted reader whose Read results (chunk size, (0,nil) stalls, data-with-EOF, and in odd-indexed runs one injected non-EOF error with or without data) are drawn from the tape; one case in 24 is a long stream (100-400 short lines) under a reader that stalls with probability 30-80 % in runs of up to 150 and may hand out whole lines only; 16 cases per run index; " +
+		Rule: "one evaluation = one scanner case: a byte string (length 0-200 over alphabets dense in \\n and \\r) scanned by readahead.NewImmediate (buffer 1-64 or 128KiB) or NewBuffered (2-64) through a scripted reader whose Read results (chunk size, (0,nil) stalls, data-with-EOF, and in odd-indexed runs one injected non-EOF error with or without data) are drawn from the tape; one case in 24 is a long stream (100-400 short lines) under a reader that stalls with probability 30-80 % in runs of up to 150 and may hand out whole lines only; 16 cases per run index; one run index in eight (and every race-leg run) is a pipeline run instead: real batchers with >= 2 readers, default matcher, all matches retained and re-read after the run; " +
 			"distinct_nontrivial = distinct hashes of (scanner kind, buffer size, content, read script) among cases where at least one chunk boundary fell inside a line",
-		Real:  []string{"pkg/readahead"},
+		Real:  []string{"pkg/readahead", "pkg/extractor/batchers + pkg/extractor (pipeline leg)"},
 		Stubs: []string{"the io.Reader under the scanner (scripted: chunking, stalls, EOF forms, injected error)"},
 	},
 	"C01": {
